@@ -225,8 +225,8 @@ def run_check(prop, tier=None, seed=None, replay=None):
         "wall_s": round(wall, 2),
         "violations": int(nviol),
     }
-    evdir = env.VERIF / "evidence"
-    evdir.mkdir(exist_ok=True)
+    evdir = env.VERIF / os.environ.get("VERIF_EVIDENCE_DIR", "evidence")  # (selftest / seeded-change runs write elsewhere)
+    evdir.mkdir(parents=True, exist_ok=True)
     (evdir / f"{prop}.json").write_text(json.dumps(ev, indent=1, default=jsonable) + "\n")
 
     for k, (f, n) in sorted(known_hit.items()):
